@@ -5,12 +5,16 @@ import json, os, subprocess, sys, time
 VERIF = os.path.dirname(os.path.dirname(os.path.abspath(__file__)))
 args = sys.argv[1:]
 mode = "own"
-if args and args[0] == "--checks":
-    mode = args[1]
+out_name = "matrix.json"
+while args and args[0] in ("--checks", "--out"):
+    if args[0] == "--checks":
+        mode = args[1]
+    else:
+        out_name = args[1]
     args = args[2:]
 seeds = args or sorted(d for d in os.listdir(os.path.join(VERIF, "seeded")) if os.path.isdir(os.path.join(VERIF, "seeded", d)))
 allp = [f"C{i:02d}" for i in range(1, 21)]
-mpath = os.path.join(VERIF, "seeded", "matrix.json")
+mpath = os.path.join(VERIF, "seeded", out_name)
 matrix = json.load(open(mpath)) if os.path.exists(mpath) else {}
 assert subprocess.run(["git", "-C", "/repo", "status", "--porcelain", "--untracked-files=no"], capture_output=True, text=True).stdout.strip() == "", "/repo not clean"
 for sd in seeds:
